@@ -5,6 +5,7 @@ package hash
 import (
 	"encoding/hex"
 	"encoding/json"
+	"reflect"
 	"strconv"
 	"testing"
 
@@ -110,8 +111,39 @@ func verifMakeNode(kind string, id int) any {
 		return &verifValStringer{id: 100 + id}
 	case "safestringer":
 		return &verifNilSafeStringer{id: id}
+	case "map":
+		return verifLabels("node", id)
+	case "pmap":
+		m := verifLabels("pnode", id)
+		return &m
+	case "mapstruct":
+		return verifMapStruct{Name: "ms-" + strconv.Itoa(id), Labels: verifLabels("ms", id)}
+	case "pmapstruct":
+		return &verifMapStruct{Name: "pms-" + strconv.Itoa(id), Labels: verifLabels("pms", id)}
 	}
 	panic("verif driver: unknown node kind " + kind)
+}
+
+// verifMapStruct is a struct value that contains a map (a labelled backend).
+type verifMapStruct struct {
+	Name   string
+	Labels map[string]string
+}
+
+// verifLabels builds a label set with four entries whose keys sort as app < env < id < zone.
+func verifLabels(tag string, id int) map[string]string {
+	return map[string]string{"zone": "z" + strconv.Itoa(id%3), "app": tag, "id": strconv.Itoa(id), "env": "prod"}
+}
+
+// verifHasMap tells whether a key / node value contains a map (those get the long lookup series).
+func verifHasMap(v any) bool {
+	switch x := v.(type) {
+	case map[string]string, map[string]int, *map[string]string, *map[string]int, verifMapStruct:
+		return true
+	case *verifMapStruct:
+		return x != nil
+	}
+	return false
 }
 
 func verifMakeKey(raw json.RawMessage) any {
@@ -171,6 +203,24 @@ func verifMakeKey(raw json.RawMessage) any {
 		return &verifValStringer{id: k.I}
 	case "safestringer":
 		return &verifNilSafeStringer{id: k.I}
+	case "mapss":
+		return verifLabels(k.S, k.I)
+	case "pmapss":
+		m := verifLabels(k.S, k.I)
+		return &m
+	case "mapsi":
+		return map[string]int{k.S: k.I, "b": 2, "a": 1, "c": k.I % 7}
+	case "pmapsi":
+		m := map[string]int{k.S: k.I, "b": 2, "a": 1, "c": k.I % 7}
+		return &m
+	case "mapstruct":
+		return verifMapStruct{Name: k.S, Labels: verifLabels(k.S, k.I)}
+	case "pmapstruct":
+		return &verifMapStruct{Name: k.S, Labels: verifLabels(k.S, k.I)}
+	case "nilpmap":
+		return (*map[string]string)(nil)
+	case "nilmap":
+		return map[string]string(nil)
 	case "nilsafestringer":
 		return (*verifNilSafeStringer)(nil)
 	}
@@ -215,14 +265,46 @@ func TestVerifDriver(t *testing.T) {
 			h = NewConsistentHash()
 		}
 		nodes := map[int]any{} // first value built for an id
-		ids := map[any]int{}   // every value handed to the ring (pointers by identity, values by equality)
+		type handed struct {
+			v  any
+			id int
+		}
+		var known []handed // every value handed to the ring
+		idOf := func(got any) int {
+			for _, x := range known {
+				if reflect.DeepEqual(x.v, got) {
+					return x.id
+				}
+			}
+			return -2
+		}
 		keys := make([]any, len(c.Probes))
+		reps := make([]int, len(c.Probes))
 		for i, raw := range c.Probes {
 			keys[i] = verifMakeKey(raw)
+			reps[i] = 3
+			if verifHasMap(keys[i]) {
+				reps[i] = 200
+			}
+		}
+		lookup := func(k any) int {
+			var got any
+			var ok bool
+			if verifTry(func() { got, ok = h.Get(k) }) {
+				return -3 // Get panicked
+			} else if !ok {
+				return -1
+			}
+			return idOf(got)
 		}
 		results := make([][]int, 0, len(c.Ops))
 		oppanic := make([]bool, 0, len(c.Ops))
-		for _, op := range c.Ops {
+		unstable := [][]int{} // [step, probe]: lookups under one membership disagreed (step -1: the empty ring)
+		prev := make([]int, len(keys))
+		for i := range prev {
+			prev[i] = -1
+		}
+		for step, op := range c.Ops {
 			kind := verifNodeKind(c.Kinds, op.Node)
 			n, seen := nodes[op.Node]
 			if !seen || op.Fresh {
@@ -231,7 +313,14 @@ func TestVerifDriver(t *testing.T) {
 					nodes[op.Node] = n
 				}
 			}
-			ids[n] = op.Node
+			known = append(known, handed{n, op.Node})
+			// every key is looked up BEFORE the membership change (in index order, so that the key looked up
+			// last before the change is the one looked up first after it) ...
+			for i, k := range keys {
+				if lookup(k) != prev[i] {
+					unstable = append(unstable, []int{step - 1, i})
+				}
+			}
 			oppanic = append(oppanic, verifTry(func() {
 				switch op.Op {
 				case "add":
@@ -244,21 +333,19 @@ func TestVerifDriver(t *testing.T) {
 					h.Remove(n)
 				}
 			}))
+			// ... and AFTER it, in reverse order, each key several times in a row (maps: 200 times)
 			row := make([]int, len(keys))
-			for i, k := range keys {
-				var got any
-				var ok bool
-				if verifTry(func() { got, ok = h.Get(k) }) {
-					row[i] = -3 // Get panicked
-				} else if !ok {
-					row[i] = -1
-				} else if id, known := ids[got]; known {
-					row[i] = id
-				} else {
-					row[i] = -2
+			for i := len(keys) - 1; i >= 0; i-- {
+				row[i] = lookup(keys[i])
+				for r := 1; r < reps[i]; r++ {
+					if lookup(keys[i]) != row[i] {
+						unstable = append(unstable, []int{step, i})
+						break
+					}
 				}
 			}
 			results = append(results, row)
+			prev = row
 		}
 		// tabulate the representation of every node and key and the hash of every virtual node the
 		// history can have created
@@ -297,6 +384,6 @@ func TestVerifDriver(t *testing.T) {
 			}
 		}
 		return map[string]any{"replicas": h.replicas, "results": results, "vhash": table, "phash": ph, "ihash": ih,
-			"nkeys": len(h.keys), "nring": len(h.ring), "oppanic": oppanic, "nrepr": nrepr, "krepr": krepr}
+			"nkeys": len(h.keys), "nring": len(h.ring), "oppanic": oppanic, "nrepr": nrepr, "krepr": krepr, "unstable": unstable}
 	})
 }
